@@ -576,7 +576,7 @@ def control_run(case, P, run):
     x0s_ = (P.x0 + ax) * sx
     for K, C in enumerate(P.cons):
         sg, ag = run['con_s'][K], run['con_a'][K]
-        if C.linear and opt not in OLD_STYLE and not C.eq:
+        if C.linear and opt == 'trust-constr' and not C.eq:   # (COBYQA gets NonlinearConstraints from the driver: no gradients)
             # like the driver: one LinearConstraint(A, lb - y0, ub - y0, keep_feasible=True) for a linear=True constraint
             from scipy.optimize import LinearConstraint
             A = np.array([J_ref(C, unsc(x0s_))[j] * sg[j] / sx for j in range(C.size)])
